@@ -1,3 +1,4 @@
+#![allow(unused_imports, dead_code)]
 //! Function families: the public pure functions of /repo called directly, one case per line
 //!   fn <family> <args…> => ok <values…> | fail | fail:guard
 use crate::rng::*;
@@ -55,6 +56,7 @@ fn class_of(e: &ContractError) -> &'static str {
 /// run the implementation on one case; `args` are the tokens after the family name
 pub fn eval(family: &str, a: &[&str]) -> String {
     match family {
+        #[cfg(feature = "f_formulas")]
         "compute_swap" => guarded(|| {
             let (n, s, k) = haloswap::formulas::compute_swap(
                 Uint128::new(u(a[0])),
@@ -64,6 +66,7 @@ pub fn eval(family: &str, a: &[&str]) -> String {
             );
             format!("ok {n} {s} {k}")
         }),
+        #[cfg(feature = "f_formulas")]
         "compute_swap_mono" => guarded(|| {
             let c = d256(u(a[4]));
             let (n, _, _) = haloswap::formulas::compute_swap(
@@ -80,6 +83,7 @@ pub fn eval(family: &str, a: &[&str]) -> String {
             );
             format!("ok {n} {n2}")
         }),
+        #[cfg(feature = "f_formulas")]
         "compute_offer_amount" => guarded(|| {
             let (o, s, k) = haloswap::formulas::compute_offer_amount(
                 Uint128::new(u(a[0])),
@@ -89,6 +93,7 @@ pub fn eval(family: &str, a: &[&str]) -> String {
             );
             format!("ok {o} {s} {k}")
         }),
+        #[cfg(feature = "f_formulas")]
         "lp_share" => guarded(|| {
             // sender wl min0 min1 S d0 d1 r0 r1
             let info = MessageInfo {
@@ -136,6 +141,7 @@ pub fn eval(family: &str, a: &[&str]) -> String {
             let x = Uint128::new(u(a[0])) * ratio;
             format!("ok {x}")
         }),
+        #[cfg(feature = "f_guards")]
         "max_spread" => guarded(|| {
             // belief ms offer ret spread od rd
             let offer = Asset { info: AssetInfo::NativeToken { denom: "p".into() }, amount: Uint128::new(u(a[2])) };
@@ -153,6 +159,7 @@ pub fn eval(family: &str, a: &[&str]) -> String {
                 Err(e) => class_of(&e).into(),
             }
         }),
+        #[cfg(feature = "f_guards")]
         "slippage" => guarded(|| {
             // tol d0 d1 r0 r1
             let pools = [
@@ -168,6 +175,7 @@ pub fn eval(family: &str, a: &[&str]) -> String {
                 Err(e) => class_of(&e).into(),
             }
         }),
+        #[cfg(feature = "f_sent")]
         "assert_sent" => guarded(|| {
             // kind denom amount funds
             let info = if a[0] == "n" {
@@ -191,13 +199,17 @@ pub fn eval(family: &str, a: &[&str]) -> String {
                 Err(_) => "fail".into(),
             }
         }),
+        #[cfg(feature = "f_bignum")]
         "bignum" => guarded(|| bignum(a[0], &a[1..])),
+        #[cfg(feature = "f_text")]
         "text" => crate::text::eval(a),
+        #[cfg(feature = "f_registry")]
         "pair_key" | "read_pairs" | "assert_operations" => crate::registry::eval(family, a),
         _ => panic!("unknown family {family}"),
     }
 }
 
+#[cfg(feature = "f_bignum")]
 fn bignum(op: &str, a: &[&str]) -> String {
     let x = || u256(a[0]);
     let y = || u256(a[1]);
@@ -648,7 +660,9 @@ pub fn run_family(o: &mut Out, family: &str, r: &mut Rng, n: u64) {
         "slippage" => gen_slippage(o, r, n),
         "assert_sent" => gen_assert_sent(o, r, n),
         "bignum" => gen_bignum(o, r, n),
+        #[cfg(feature = "f_text")]
         "text" => crate::text::generate(o, r, n),
+        #[cfg(feature = "f_registry")]
         "pair_key" | "read_pairs" | "assert_operations" => crate::registry::generate(o, family, r, n),
         _ => panic!("unknown family {family}"),
     }
